@@ -145,6 +145,13 @@ def run(ctx, rep):
     n_sites = _operands.run(F, rep, "C05.operand-order", nonc, "interpreter")
     rep.floor("C05.operand-order sites", n_sites, 60)
 
+    # ---- each operator applies its own primitive ---------------------------------------------------------
+    from props import _primsem
+    n_prim = 0
+    for tr in _primsem.EXPECTED:
+        n_prim += _primsem.check(F, rep, "C05.primitive-semantics", "interpreter", tr, T.rt_fn(tr))
+    rep.floor("C05.primitive-semantics arithmetic sites", n_prim, 40)
+
     # ---- (d) -------------------------------------------------------------------------------------------
     ncast = 0
     for f in ofns:
